@@ -43,6 +43,11 @@ def gen(rng, tier):
         for t_ in spec["model"]["tasks"]:
             if rng.random() < 0.5:
                 t_["work"] = t_["work"] + rng.choice([0.005, 0.003])
+    if rng.random() < 0.1:
+        # an automatic task declared with the rate 0 (0.0 or the int 0): it is WORKING and its remaining work stays where it is
+        for t_ in spec["model"]["tasks"]:
+            if t_.get("auto") and not t_.get("sub") and rng.random() < 0.7:
+                t_["rate"] = rng.choice([0.0, 0])
     if rng.random() < 0.08 and not spec.get("edit") and not spec.get("from_json"):
         # an (unconfigured) sub-project task: an automatic task of its own class; with a history, the project goes through a file
         m_ = spec["model"]
